@@ -9,7 +9,7 @@ use std::path::PathBuf;
 
 pub static PROP: Prop = Prop {
     id: "C18",
-    rule: "module graphs of 2-6 modules written to disk, decoded from a proptest choice vector: each module is a file, a directory with main.koto, or both (the file must win); its top level prints a marker, imports other modules (edges may form cycles) through `import m`, `import m as a`, `from m import v`, `from m import v as w`, `from m import *` or a missing name, exports a value computed from what it imported, reassigns the exported name locally (must not alter the export), reads the export from a function defined before the export, optionally defines a passing or failing @test and a @main, and optionally throws after exporting. The main script imports a random sequence of modules (with repeats) each inside try/catch, prints what it got, and is run twice on the same runtime; settings run_import_tests and export_top_level_ids are drawn per case. The complete stdout (which top levels, tests and @main functions ran, in which order, how often), the imported values and Koto::exports() are compared with a reference model of the import algorithm (run once, tests then @main, cycle = error, failed module leaves nothing cached and can be retried, completed dependencies stay cached). Non-trivial: the graph has a cycle, a failing module, a repeated import or a file/directory conflict.",
+    rule: "module graphs of 2-6 modules written to disk, decoded from a proptest choice vector: each module is a file, a directory with main.koto, or both (the file must win); its top level prints a marker, imports other modules (edges may form cycles) through `import m`, `import m as a`, `from m import v`, `from m import v as w`, `from m import *` or a missing name, exports a value computed from what it imported, reassigns the exported name locally (must not alter the export), reads the export from a function defined before the export, optionally defines a passing or failing @test and a @main (which may itself throw), and optionally throws after exporting. The main script imports a random sequence of modules (with repeats) each inside try/catch, prints what it got, and is run twice on the same runtime; settings run_import_tests and export_top_level_ids are drawn per case. The complete stdout (which top levels, tests and @main functions ran, in which order, how often), the imported values and Koto::exports() are compared with a reference model of the import algorithm (run once, tests then @main, cycle = error, failed module leaves nothing cached and can be retried, completed dependencies stay cached). Non-trivial: the graph has a cycle, a failing module, a repeated import or a file/directory conflict.",
     assumptions: &["module files are written under engine/run per shard and removed afterwards", "the text of import errors is not judged, only that the import failed"],
     shards: |_| 16,
     run_shard,
@@ -35,6 +35,8 @@ pub struct Module {
     /// 0 none, 1 passing, 2 failing
     test: u8,
     has_main: bool,
+    #[serde(default)]
+    main_throws: bool,
     throws: bool,
 }
 
@@ -66,7 +68,7 @@ fn gen_case(s: &mut Src) -> Case {
         if layout == 1 {
             imports.clear();
         }
-        modules.push(Module { layout, imports, test: s.weighted(&[4, 3, 1]) as u8, has_main: s.below(2) == 0, throws: s.below(8) == 0 });
+        modules.push(Module { layout, imports, test: s.weighted(&[4, 3, 1]) as u8, has_main: s.below(2) == 0, main_throws: s.below(6) == 0, throws: s.below(8) == 0 });
     }
     let mut main_imports = vec![];
     let nm = 1 + s.below(6) as usize;
@@ -110,7 +112,11 @@ fn module_source(k: usize, m: &Module, variant: &str) -> String {
         _ => {}
     }
     if m.has_main {
-        s.push_str(&format!("@main = || print 'main:m{k}'\n"));
+        if m.main_throws {
+            s.push_str(&format!("@main = ||\n  print 'main:m{k}'\n  throw 'main failed'\n"));
+        } else {
+            s.push_str(&format!("@main = || print 'main:m{k}'\n"));
+        }
     }
     if m.throws {
         s.push_str(&format!("throw 'fail:m{k}'\n"));
@@ -188,6 +194,9 @@ impl<'a> Model<'a> {
             }
             if m.has_main {
                 self.out.push(format!("main:m{k}"));
+                if m.main_throws {
+                    return Err(());
+                }
             }
             Ok(val)
         })();
@@ -263,7 +272,7 @@ pub fn eval_case(c: &Case, dir: &PathBuf) -> Eval {
             r
         })
     };
-    let nontrivial = has_cycle(c) || c.modules.iter().any(|m| m.throws || m.test == 2 || m.layout == 2) || repeated;
+    let nontrivial = has_cycle(c) || c.modules.iter().any(|m| m.throws || m.test == 2 || m.layout == 2 || (m.has_main && m.main_throws)) || repeated;
     let mut ev = Eval::pass(nontrivial).class(if has_cycle(c) { "cyclic" } else { "dag" });
     let cap = Capture::default();
     let opts = RunOpts { script_path: Some(main_path.to_string_lossy().to_string()), export_top_level: c.export_top_level, ..Default::default() };
@@ -381,12 +390,13 @@ fn run_shard(ctx: &mut Ctx) {
                 }
                 let m = &c.modules[k];
                 if m.test > 0 || m.has_main || m.throws || m.layout > 0 {
-                    for what in 0..4 {
+                    for what in 0..5 {
                         let mut x = c.clone();
                         match what {
                             0 => x.modules[k].test = 0,
                             1 => x.modules[k].has_main = false,
                             2 => x.modules[k].throws = false,
+                            3 => x.modules[k].main_throws = false,
                             _ => x.modules[k].layout = 0,
                         }
                         cands.push(x);
